@@ -15,9 +15,9 @@ block (which mutagen re-renders from parsed fields and the model keeps raw) is c
 (`flac:rerender-diff`), everything else is a disagreement.
 On `fresh` steps an additional scenario exercises layouts the samples do not have (ID3v2 prefix, deleteid3,
 ID3v1 trailer, several padding / comment blocks, unknown block types, pictures) built by the model's flac_build."""
-import io
+import io, re
 import mutagen
-from common import hx, unhx, zs, zp
+from common import hx, unhx, zs, zp, coq_bytes, vm_shard
 
 KINDS = {"FLAC"}
 LIMIT = 300_000
@@ -30,6 +30,7 @@ class _S:
     prev_w = None        # identity of the walker result after the previous step (continuation test)
     obj = None           # None: no live object; "?": live object with unknown shadow; else list of [code, ovf, payload]
     vendor = None        # vendor bytes of the object's tags (None: object has no tags)
+    vm_done = False
 
 
 def default_vendor():
@@ -164,6 +165,9 @@ def check_after(ctx, what, after, expect_tags, data, expect_nopad=False):
 
 def check_step(ctx, kind, st):
     S = _S
+    if not S.vm_done:
+        S.vm_done = True
+        vm_crosscheck(ctx)
     if st.wbefore is not S.prev_w or S.prev_w is None:
         S.obj = None          # a new history starts with a new Runner
         S.vendor = None
@@ -370,3 +374,72 @@ def extra_layouts(ctx, st, data):
         compare_bytes(ctx, "layout delete", reply, f2, exc2, d2)
         if exc2 is None:
             check_after(ctx, "layout delete", f2, None, d2, expect_nopad=True)
+
+
+# ---------------------------------------------------------------------------------- vm_compute cross-check
+def coq_vc(vendor, comments):
+    return "(mkVC %s [%s])" % (coq_bytes(vendor), "; ".join("(%s, %s)" % (coq_bytes(k), coq_bytes(v)) for k, v in comments))
+
+
+def vm_crosscheck(ctx):
+    """the extracted binary and Coq's own evaluator must agree on flac_save / flac_delete / flac_wf / flac_load for small
+    synthetic files (once per run)"""
+    rng = ctx.rng
+    si = bytes([16, 0, 16, 0, 0, 0, 0, 0, 0, 0, 10, 196, 66, 240, 0, 0, 0, 0]) + bytes(16)
+    cases, keys = [], []
+    for i in range(14):
+        blocks = [[0, -1, si]]
+        if rng.random() < 0.7:
+            v = b"v" * rng.choice([0, 2])
+            blocks.append([4, -1, len(v).to_bytes(4, "little") + v + (1).to_bytes(4, "little") + (3).to_bytes(4, "little") + b"a=b"])
+        if rng.random() < 0.5:
+            blocks.append([rng.choice([2, 9]), -1, bytes(rng.randrange(256) for _ in range(rng.choice([0, 5])))])
+        if rng.random() < 0.7:
+            blocks.append([1, -1, bytes(rng.choice([0, 9, 40]))])
+        id3 = bytes(rng.choice([0, 3])) if rng.random() < 0.4 else None
+        audio = bytes([255, 248, 1, 2, 3])
+        if i == 13:
+            audio = b"\x00\x01"            # not well-formed (no frame sync)
+        r = ctx.model.call("flac_build", hx(id3) if id3 is not None else "none", enc_blocks(blocks), hx(audio))
+        f0 = unhx(r[3:])
+        vendor = b"m"
+        comments = [(b"title", "ä=".encode("utf-8") + b"x" * rng.choice([0, 1, 30]))] + ([(b"a b", b"")] if rng.random() < 0.5 else [])
+        if i == 12:
+            comments = [(b"a=b", b"c")]          # invalid key
+        mode, cb = rng.choice([("none", "None"), ("default", "(Some cb_default)"), ("keep", "(Some cb_keep)"),
+                               ("c0", "(Some (cb_const 0))"), ("c" + zs(777), "(Some (cb_const 777))")])
+        F = coq_bytes(f0)
+        cases.append("match flac_save %s %s (mkOpts %s false) with Ok d => (0, d) | Raise _ => (1, []) end" % (F, coq_vc(vendor, comments), cb))
+        keys.append(("save", f0, vendor, comments, mode))
+        cases.append("match flac_delete %s with Ok d => (0, d) | Raise _ => (1, []) end" % F)
+        keys.append(("delete", f0))
+        cases.append("flac_wf %s" % F)
+        keys.append(("wf", f0))
+    pre = "From Coq Require Import ZArith List. Import ListNotations. Require Import Base.Py Model.Fam_flac. Open Scope Z_scope."
+    res, log = vm_shard("fam_flac", pre, cases)
+    if res is None or len(res) != len(cases):
+        ctx.disagree("fam.flac.vm_shard", "vm_compute shard failed to run", {"log": str(log)[-300:]})
+        return
+    for key, r in zip(keys, res):
+        ctx.vm_cases += 1
+        r = r.replace("%Z", "")
+        if key[0] == "wf":
+            want = ctx.model.call("flac_wf", hx(key[1]))
+            if want != ("ok 1" if r == "true" else "ok 0"):
+                ctx.disagree("fam.flac.vm_shard", "flac_wf: extracted %s, vm_compute %s" % (want, r), {"file": key[1].hex()})
+            continue
+        if key[0] == "save":
+            rm = ctx.model.call("flac_save", hx(key[1]), hx(key[2]), enc_comments(key[3]), key[4], "0")
+        else:
+            rm = ctx.model.call("flac_delete", hx(key[1]))
+        m = re.match(r"\((\d), \[([^\]]*)\]\)", r)
+        if not m:
+            ctx.disagree("fam.flac.vm_shard", "unparsable vm_compute result", {"result": r[:200]})
+            continue
+        if m.group(1) == "1":
+            ok = rm.startswith("raise")
+        else:
+            bts = bytes(int(x) for x in m.group(2).split(";") if x.strip())
+            ok = rm.startswith("ok ") and unhx(rm.split(" ")[1]) == bts
+        if not ok:
+            ctx.disagree("fam.flac.vm_shard", "%s: extracted binary and vm_compute differ" % key[0], {"file": key[1].hex(), "binary": rm[:120], "vm": r[:120]})
